@@ -28,6 +28,7 @@ FM = 'src/data/libfm_parser.h'
 CSV = 'src/data/csv_parser.h'
 ROW = 'src/data/row_block.h'
 PARSER = 'src/data/parser.h'
+DATACC = 'src/data.cc'
 
 C = P('c', 'c', 32)
 
@@ -141,6 +142,19 @@ def threaded_next_shape(text):
             '-- under `if (tmp_ != NULL)`\n'
             'def tpRecycleSites : Nat := %d\ndef tpRecycleAfterScan : Bool := %s\ndef tpRecycleGuarded : Bool := %s'
             % (PARSER, n, 'true' if after else 'false', 'true' if guarded else 'false'))
+
+
+def factory_threads(text):
+    """src/data.cc: the thread count the three factories pass to the parser constructors (must agree), and whether the
+    libsvm / libfm factories wrap the parser in ThreadedParser while the csv factory returns it bare"""
+    ns = re.findall(r'new (LibSVMParser|LibFMParser|CSVParser)<[^>]*>\(source, args, (\d+)\)', text)
+    if sorted(k for k, _ in ns) != ['CSVParser', 'LibFMParser', 'LibSVMParser'] or len(set(n for _, n in ns)) != 1:
+        raise cexpr.ParseError('data.cc: parser factories not found / disagree on the thread count: %r' % (ns,))
+    wrapped = len(re.findall(r'parser = new ThreadedParser<IndexType>\(parser\);', text))
+    text_splits = len(re.findall(r'InputSplit::Create\(path\.c_str\(\), part_index, num_parts, "text"\)', text))
+    return ('-- %s: `new <Fmt>Parser<..>(source, args, N)` in the three factories; ThreadedParser wrappers; "text" splits\n'
+            'def factoryThreads : Nat := %s\ndef factoryThreadedWrappers : Nat := %d\ndef factoryTextSplits : Nat := %d'
+            % (DATACC, ns[0][1], wrapped, text_splits))
 
 
 def flag(name, f, present_re, absent_re, doc):
@@ -287,6 +301,8 @@ ITEMS = [
                    'qids for all rows or for none'),
     getblock_check('gbFieldCheck', 'field.size()', [P('field.size()', 'nfield', 64), P('index.size()', 'nindex', 64)],
                    'fields for all entries or for none'),
+    # ---- the parser factories of src/data.cc -------------------------------------------------------
+    {'name': 'factoryThreads', 'file': DATACC, 'custom': factory_threads},
     # ---- ThreadedParser::Next (parser.h): where the lent cell is given back -----------------------
     {'name': 'tpRecycleSites', 'file': PARSER, 'custom': threaded_next_shape},
     # ---- repairs present in the source? -------------------------------------------------------------
